@@ -989,7 +989,8 @@ impl WmoWriter {
             0
         };
 
-        let total_size = 32 + vertices_size + tile_flags_size; // 32 bytes for header
+        // 40 bytes of header are written below: type, flags, width-1, height-1 (16) + bounding box (24)
+        let total_size = 40 + vertices_size + tile_flags_size;
 
         let header = ChunkHeader {
             id: chunks::MLIQ,
